@@ -441,6 +441,39 @@ pub fn programs(thorough: bool) -> Vec<CfProg> {
                     nodes.push(N::Loop { trip, cond0: true, carried: vec![w.to_string()], body, outs: vec!["l_v".into()] });
                     nodes.push(s(OpK::Add, &["l_v", u], "post"));
                     out.push(CfProg { top: Block { params: vec![], nodes, outputs: vec!["l_v".into(), "post".into()] }, bool_inputs: vec![], class: "If nested in Loop".into() });
+                    // the same parent value is used by the loop body directly AND captured by the
+                    // If nested inside it (captured at two nesting levels); not used afterwards
+                    let inner2 = N::If {
+                        cond: "cond_in".into(),
+                        then_b: Block { params: vec![], nodes: vec![s(OpK::Add, &["mid", u], "it")], outputs: vec!["it".into()] },
+                        else_b: Block { params: vec![], nodes: vec![s(OpK::Sub, &["mid", u], "ie")], outputs: vec!["ie".into()] },
+                        outs: vec!["v_out".into()],
+                    };
+                    let body2 = Block {
+                        params: vec!["iter".into(), "cond_in".into(), "v_in".into()],
+                        nodes: vec![s(OpK::Mul, &["v_in", u], "mid"), inner2, N::S(OpK::Identity, vec!["cond_in".into()], "cond_out".into())],
+                        outputs: vec!["cond_out".into(), "v_out".into()],
+                    };
+                    let mut nodes = pre.clone();
+                    nodes.push(N::Loop { trip, cond0: true, carried: vec![w.to_string()], body: body2, outs: vec!["l_v".into()] });
+                    out.push(CfProg { top: Block { params: vec![], nodes, outputs: vec!["l_v".into()] }, bool_inputs: vec![], class: "If nested in Loop, value captured at two levels".into() });
+                    // same with an If as the outer operator
+                    for cond in ["ctrue", "cfalse"] {
+                        let inner3 = N::If {
+                            cond: cond.into(),
+                            then_b: Block { params: vec![], nodes: vec![s(OpK::Add, &["mid", u], "it")], outputs: vec!["it".into()] },
+                            else_b: Block { params: vec![], nodes: vec![s(OpK::Sub, &["mid", u], "ie")], outputs: vec!["ie".into()] },
+                            outs: vec!["t_out".into()],
+                        };
+                        let mut nodes = pre.clone();
+                        nodes.push(N::If {
+                            cond: cond.into(),
+                            then_b: Block { params: vec![], nodes: vec![s(OpK::Mul, &[w, u], "mid"), inner3.clone()], outputs: vec!["t_out".into()] },
+                            else_b: Block { params: vec![], nodes: vec![s(OpK::Mul, &[u, u], "mid"), inner3], outputs: vec!["t_out".into()] },
+                            outs: vec!["if_out".into()],
+                        });
+                        out.push(CfProg { top: Block { params: vec![], nodes, outputs: vec!["if_out".into()] }, bool_inputs: vec![], class: "If nested in If, value captured at two levels".into() });
+                    }
                     // If branch contains a Loop
                     let lbody = Block {
                         params: vec!["iter".into(), "cond_in".into(), "v_in".into()],
